@@ -168,6 +168,7 @@ type fnTrans struct {
 	allowedDone   bool
 	seqFacts      []Term
 	curUses       []Term
+	cellFn        map[string]cellFnRec // local cells that hold a statically known closure (assigned exactly once)
 }
 
 func (t *fnTrans) errorf(f string, a ...interface{}) {
@@ -1148,6 +1149,7 @@ func (t *fnTrans) pass() {
 	t.lockGhosts = nil
 	t.inl, t.inlSeq, t.inlStack = nil, 0, nil
 	t.callSeq = 0
+	t.cellFn = nil
 	t.allowedDone, t.allowed, t.allowedAll = false, nil, false
 	t.S.decls, t.S.declared, t.S.axioms = nil, map[string]bool{}, nil
 	t.S.strLits, t.S.strOrder = map[string]string{}, nil
